@@ -280,7 +280,15 @@ def c17Subset : Handler := fun c => do
     (feat.map (fun e => ("feat".toList, e.2, ()))) ++
       subs.flatMap (fun (sub, fs) => fs.map (fun f => (sub, f, ())))
   let dest := copySubset ("feat".toList :: subs.map (·.1)) names src
+  -- the copy loop itself (order of the code, `FileExistsError` of os.link / os.symlink)
+  let link ← getBoolD c "link" true
+  let cmd := copyCmd link ("feat".toList :: subs.map (·.1)) (src.map (fun e => (e.1, e.2.1))) names
+  let keyLe := fun (a b : FName × FName) => leName (a.1 ++ '/' :: a.2) (b.1 ++ '/' :: b.2)
   pure (objJ [("selected", listJ nameJ sel),
+    ("cmd", match cmd with
+      | .error _ => objJ [("error", strJ "FileExistsError")]
+      | .ok d => objJ [("ok", listJ (fun (e : FName × FName) => Json.arr #[nameJ e.1, nameJ e.2])
+          (d.mergeSort keyLe))]),
     ("dest", listJ (fun (e : FName × FName × Unit) => Json.arr #[nameJ e.1, nameJ e.2.1])
       (dest.mergeSort (fun a b => leName (a.1 ++ '/' :: a.2.1) (b.1 ++ '/' :: b.2.1))))])
 
@@ -408,6 +416,7 @@ def c17Timed : Handler := fun c => do
             Json.arr #[nameJ (stemOf s e.1 ++ tgs),
               match tokToTextGrid tgFwd i2tT shift tier prec e.2 with
               | .ok g => listJ strJ g.render
+              | .error .emptyMax => objJ [("error", strJ "RuntimeError")]
               | .error .otherMethod => objJ [("error", strJ "other_method")]
               | .error .value => objJ [("error", strJ "ValueError")]])
             (dSorted.filter (fun e => selects p s e.1))
